@@ -97,6 +97,16 @@ type tiX struct {
 	p     *packages.Package
 	known map[*types.Func]int
 	flat  map[string][]tiFlatField
+	codec bool // codecir.go: the codec IR (Base/CodecIR.lean) instead of the type-info IR
+}
+
+// seqTok: the sequencing operator between two statements (the codec IR has its own notation: two
+// notations with the same token would make every `a ;; b` ambiguous for the Lean elaborator).
+func (x *tiX) seqTok() string {
+	if x.codec {
+		return " ;;;\n"
+	}
+	return " ;;\n"
 }
 
 // pkgStruct reports the name of t when it is a named struct type of the translated package.
@@ -319,7 +329,7 @@ func (f *tiFn) run() string {
 	if len(stmts) == 0 {
 		return "    .skip"
 	}
-	return strings.Join(stmts, " ;;\n")
+	return strings.Join(stmts, f.x.seqTok())
 }
 
 // ---- expressions -----------------------------------------------------------------------------
@@ -375,6 +385,11 @@ var tiTypeMethods1 = map[string]string{
 var tiTypeMethods2 = map[string]string{"Field": "typeField", "FieldByIndex": "typeFieldByIndex"}
 
 func (f *tiFn) expr(e ast.Expr) string {
+	if f.x.codec {
+		if s, ok := f.codecExpr(e); ok {
+			return s
+		}
+	}
 	if tv, ok := f.info().Types[e]; ok && tv.Value != nil {
 		switch tv.Value.Kind() {
 		case constant.Int:
@@ -430,12 +445,12 @@ func (f *tiFn) expr(e ast.Expr) string {
 		if tiIsIntSlice(t) || f.isPtrSlice(t) || isStringType(t) {
 			return fmt.Sprintf("(.index %s %s)", f.expr(v.X), f.expr(v.Index))
 		}
-		if tiIsStringBoolMap(t) {
+		if tiIsStringBoolMap(t) && !f.x.codec {
 			return fmt.Sprintf("(.mapGet %s %s)", f.expr(v.X), f.expr(v.Index))
 		}
 		return f.unknownE(v, "index of something the IR does not model")
 	case *ast.SliceExpr:
-		if v.Slice3 || !isStringType(f.typ(v.X)) {
+		if v.Slice3 || !isStringType(f.typ(v.X)) || f.x.codec {
 			return f.unknownE(v, "slice expression other than on a string")
 		}
 		switch {
@@ -452,6 +467,7 @@ func (f *tiFn) expr(e ast.Expr) string {
 	case *ast.CompositeLit:
 		t := f.typ(v)
 		switch {
+		case f.x.codec:
 		case tiIsIntSlice(t) && len(v.Elts) == 1:
 			if _, isKV := v.Elts[0].(*ast.KeyValueExpr); !isKV {
 				return fmt.Sprintf("(.ints1 %s)", f.expr(v.Elts[0]))
@@ -478,8 +494,14 @@ func (f *tiFn) expr(e ast.Expr) string {
 func (f *tiFn) binary(v *ast.BinaryExpr) string {
 	switch v.Op {
 	case token.LAND:
+		if f.x.codec {
+			return f.codecShortCircuit(v, true)
+		}
 		return fmt.Sprintf("(.land %s %s)", f.expr(v.X), f.expr(v.Y))
 	case token.LOR:
+		if f.x.codec {
+			return f.codecShortCircuit(v, false)
+		}
 		return fmt.Sprintf("(.lor %s %s)", f.expr(v.X), f.expr(v.Y))
 	case token.EQL, token.NEQ:
 		var s string
@@ -498,7 +520,9 @@ func (f *tiFn) binary(v *ast.BinaryExpr) string {
 			return s
 		}
 		tx, ty := f.typ(v.X), f.typ(v.Y)
-		okT := func(t types.Type) bool { return isIntType(t) || isStringType(t) || isBoolType(t) }
+		okT := func(t types.Type) bool {
+			return isIntType(t) || isStringType(t) || isBoolType(t) || (f.x.codec && codecIsFloat(t))
+		}
 		if !okT(tx) || !okT(ty) {
 			return f.unknownE(v, "comparison of values the IR does not compare")
 		}
@@ -543,7 +567,7 @@ func (f *tiFn) selector(v *ast.SelectorExpr) string {
 		return f.unknownE(v, "selector that is not a field")
 	}
 	if isNamedType(f.typ(v.X), "reflect", "StructField") {
-		if op, ok := tiStructFieldOps[v.Sel.Name]; ok {
+		if op, ok := tiStructFieldOps[v.Sel.Name]; ok && !f.x.codec {
 			return fmt.Sprintf("(.ext1 .%s %s)", op, f.expr(v.X))
 		}
 		return f.unknownE(v, "field of reflect.StructField the IR does not model")
@@ -561,6 +585,11 @@ func (f *tiFn) selector(v *ast.SelectorExpr) string {
 
 // zero value of a Go type, as an expression.
 func (f *tiFn) zero(t types.Type) (string, bool) {
+	if f.x.codec {
+		if s, ok := codecZero(t); ok {
+			return s, true
+		}
+	}
 	switch {
 	case isIntType(t):
 		return "(.int 0)", true
@@ -635,6 +664,10 @@ func (f *tiFn) allocLit(n ast.Node, lit *ast.CompositeLit) string {
 		return f.unknownE(n, "composite literal with a field the record does not have")
 	}
 	k := f.temp("&" + name + "{…}")
+	if f.x.codec {
+		f.pre = append(f.pre, fmt.Sprintf("-- %s: &%s{…}\n.allocRec %d %s [\n%s]", f.where(n), name, k, strLit(name), strings.Join(fs, ",\n")))
+		return fmt.Sprintf("(.var %d)", k)
+	}
 	f.pre = append(f.pre, fmt.Sprintf("-- %s: &%s{…}\n.alloc %d [\n%s]", f.where(n), name, k, strings.Join(fs, ",\n")))
 	return fmt.Sprintf("(.var %d)", k)
 }
@@ -710,6 +743,9 @@ func (f *tiFn) callArgs(c *ast.CallExpr, recv ast.Expr) []string {
 
 func (f *tiFn) callExpr(c *ast.CallExpr) string {
 	info := f.info()
+	if f.x.codec {
+		return f.codecCallExpr(c)
+	}
 	// conversion
 	if tv, ok := info.Types[c.Fun]; ok && tv.IsType() && len(c.Args) == 1 {
 		to, from := tv.Type, f.typ(c.Args[0])
@@ -831,7 +867,7 @@ func (f *tiFn) group(stmts []string, ind string) string {
 	if len(stmts) == 0 {
 		return ind + ".skip"
 	}
-	return ind + "(\n" + strings.Join(stmts, " ;;\n") + "\n" + ind + ")"
+	return ind + "(\n" + strings.Join(stmts, f.x.seqTok()) + "\n" + ind + ")"
 }
 
 func (f *tiFn) comment(n ast.Node, ind string) string {
@@ -860,7 +896,7 @@ func (f *tiFn) lhs(e ast.Expr) string {
 			}
 		}
 	case *ast.SelectorExpr:
-		if f.closure != nil {
+		if f.closure != nil || f.x.codec {
 			return ""
 		}
 		if base, sn, path, ok := f.fieldPath(v); ok {
@@ -869,7 +905,7 @@ func (f *tiFn) lhs(e ast.Expr) string {
 			}
 		}
 	case *ast.IndexExpr:
-		if f.closure != nil {
+		if f.closure != nil || f.x.codec {
 			return ""
 		}
 		if id, ok := v.X.(*ast.Ident); ok {
@@ -908,6 +944,11 @@ func (f *tiFn) assignStmt(v *ast.AssignStmt, ind string) []string {
 		}
 		ls = append(ls, s)
 	}
+	if f.x.codec {
+		if out, ok := f.codecAssign(v, ls, c, ind); ok {
+			return out
+		}
+	}
 	if len(v.Rhs) == 1 && len(v.Lhs) >= 1 {
 		if call, ok := ast.Unparen(v.Rhs[0]).(*ast.CallExpr); ok {
 			if no, recv, ok := f.calledFunc(call); ok {
@@ -917,7 +958,7 @@ func (f *tiFn) assignStmt(v *ast.AssignStmt, ind string) []string {
 				args := f.callArgs(call, recv)
 				return f.flush(ind, fmt.Sprintf("%s%s.call [%s] %d [%s]", c, ind, strings.Join(ls, ", "), no, strings.Join(args, ", ")))
 			}
-			if len(v.Lhs) == 2 {
+			if len(v.Lhs) == 2 && !f.x.codec {
 				if f.pkgFunc(call) == "strconv.ParseUint" && len(call.Args) == 3 {
 					args := f.callArgs(call, nil)
 					return f.flush(ind, fmt.Sprintf("%s%s.extCall [%s] .parseUint [%s]", c, ind, strings.Join(ls, ", "), strings.Join(args, ", ")))
@@ -934,7 +975,7 @@ func (f *tiFn) assignStmt(v *ast.AssignStmt, ind string) []string {
 			}
 		}
 		// `v, ok := m[k]`
-		if ix, ok := ast.Unparen(v.Rhs[0]).(*ast.IndexExpr); ok && len(v.Lhs) == 2 && tiIsStringBoolMap(f.typ(ix.X)) {
+		if ix, ok := ast.Unparen(v.Rhs[0]).(*ast.IndexExpr); ok && len(v.Lhs) == 2 && tiIsStringBoolMap(f.typ(ix.X)) && !f.x.codec {
 			m, k := f.expr(ix.X), f.expr(ix.Index)
 			return f.flush(ind, fmt.Sprintf("%s%s.assign [%s] [(.mapGet %s %s), (.mapHas %s %s)]", c, ind, strings.Join(ls, ", "), m, k, m, k))
 		}
@@ -1001,6 +1042,14 @@ func (f *tiFn) stmt(s ast.Stmt, ind string) []string {
 		call, ok := v.X.(*ast.CallExpr)
 		if !ok {
 			return []string{ind + f.unknownS(v, "expression statement")}
+		}
+		if f.x.codec {
+			if out, ok := f.codecExprStmt(v, call, ind); ok {
+				return out
+			}
+			if f.pkgFunc(call) == "sort.Slice" {
+				return []string{ind + f.unknownS(v, "sort.Slice")}
+			}
 		}
 		if f.pkgFunc(call) == "sort.Slice" && len(call.Args) == 2 {
 			return f.sortSlice(v, call, ind)
